@@ -164,7 +164,7 @@ Notation "'let!' x ':=' m 'in' k" := (mbind m (fun x => k))
   (at level 200, x name, m at level 100, k at level 200) : heap_scope.
 Notation "'let!' ' p ':=' m 'in' k" := (mbind m (fun x => match x with p => k end))
   (at level 200, p pattern, m at level 100, k at level 200) : heap_scope.
-Notation "m ';;' k" := (mbind m (fun _ => k)) (at level 200, right associativity) : heap_scope.
+Notation "m ;; k" := (mbind m (fun _ => k)) (at level 100, k at level 200, right associativity) : heap_scope.
 Open Scope heap_scope.
 
 Definition is_exn (a : hl7_exn) (x : exn) : bool :=
@@ -226,6 +226,51 @@ Definition set_dt (p : nat) (d : option str) : M unit := modify (fun s => setn s
 Definition set_st (p : nat) (st : option structure) : M unit := modify (fun s => setn s p (with_st (getn s p) st)).
 Definition set_val (p : nat) (v enc : str) : M unit := modify (fun s => setn s p (with_value (getn s p) v enc)).
 Definition set_name (p : nat) (nm : option str) : M unit := modify (fun s => setn s p (with_name (getn s p) nm)).
+
+(* ------------------------------------------------------------------------------------------ *)
+(* the right-hand side of an assignment *)
+Inductive value :=
+  | VText (s : str)                      (* a string: parsed by the child parser *)
+  | VElem (c : nat)                      (* an Element instance *)
+  | VProxy (owner : nat) (name : str)    (* getattr(owner, name): copies list[0] by value *)
+  | VDt (dt : str) (text : str).         (* a BaseDataType instance  dt(text) *)
+
+(* histories: operations over HANDLES (positions in the table of elements the client holds) *)
+
+Inductive hvalue :=
+  | HText (s : str)
+  | HElem (h : nat)
+  | HProxy (h : nat) (name : str)
+  | HDt (dt : str) (text : str).
+
+Inductive op :=
+  | ONewSeg (lvl : level) (name : str)
+  | ONewField (lvl : level) (name dt : option str)
+  | ONewComp (lvl : level) (name dt : option str)
+  | ONewSub (lvl : level) (name dt : option str) (text : str)
+  | OAdd (x c : nat)                                     (* x.add(c) *)
+  | OSetAttr (x : nat) (names : list str) (v : hvalue)   (* x.n1...nk = v *)
+  | OSetIndex (x : nat) (names : list str) (i : nat) (v : hvalue)   (* x.n1...nk[i] = v *)
+  | OSetListIndex (x i : nat) (v : hvalue)               (* x.children[i] = v *)
+  | ODelAttr (x : nat) (names : list str)                (* del x.n1...nk *)
+  | ODelIndex (x : nat) (names : list str) (i : nat)     (* del x.n1...nk[i] *)
+  | ODelListIndex (x i : nat)                            (* del x.children[i] *)
+  | ORemove (x c : nat)                                  (* x.children.remove(c) *)
+  | OAddHelper (x : nat) (name : str)                    (* h = x.add_field(name) / add_component / add_subcomponent *)
+  | OGrab (x : nat) (names : list str) (i : nat)         (* h = x.n1...nk[i] *)
+  | OGrabList (x i : nat)                                (* h = x.children[i] *)
+  | ORead (x : nat) (names : list str)                   (* evaluate x.n1...nk; repr = names of the proxy's list *)
+  | OReadValue (x : nat) (names : list str)              (* x.n1...nk.value *)
+  | OLen (x : nat) (names : list str)                    (* len(x.n1...nk) and iteration *)
+  | OLenList (x : nat)                                   (* len(x.children), iteration, containment *)
+  | OToEr7 (x : nat)
+  | OSetValueChain (x : nat) (names : list str) (text : str)   (* x.n1...nk.value = text *)
+  | OSetValue (x : nat) (text : str)                     (* x.value = text *)
+  | OSetValueDt (x : nat) (dt text : str)                (* x.value = dt(text) *)
+  | OSetDatatype (x : nat) (dt : option str)             (* x.datatype = dt *)
+  | OSetParent (c : nat) (p : option nat).               (* c.parent = p *)
+
+Record rstate := mk_rstate { r_store : store; r_handles : list nat }.
 
 (* ------------------------------------------------------------------------------------------ *)
 Section Ops.
@@ -643,12 +688,6 @@ Definition to_er7 (s : store) (i : nat) (trailing : bool) : str :=
 
 (* ---------- ElementList.set ---------- *)
 
-(* the right-hand side of an assignment *)
-Inductive value :=
-  | VText (s : str)                      (* a string: parsed by the child parser *)
-  | VElem (c : nat)                      (* an Element instance *)
-  | VProxy (owner : nat) (name : str)    (* getattr(owner, name): copies list[0] by value *)
-  | VDt (dt : str) (text : str).         (* a BaseDataType instance  dt(text) *)
 
 Definition is_cnf (x : exn) : bool := is_exn EChildNotFound x.
 
@@ -1040,5 +1079,226 @@ Definition new_component (lvl : level) (name : option str) (dt : option str) : M
   let! x := lift (mk_component t lvl name dt None) in alloc_comp lvl None x.
 Definition new_subcomponent (lvl : level) (name : option str) (dt : option str) (text : str) : M nat :=
   let! x := lift (mk_subcomponent t lvl (leaf_enc lvl) name dt text None) in alloc_sub lvl None x.
+
+
+
+(* ------------------------------------------------------------------------------------------ *)
+(* histories *)
+
+
+Definition handle (r : rstate) (h : nat) : result nat :=
+  match nth_error (r_handles r) h with Some i => Ok i | None => Err OutOfFuel end.
+
+Definition hval (r : rstate) (v : hvalue) : result value :=
+  match v with
+  | HText s => Ok (VText s)
+  | HElem h => match handle r h with Ok i => Ok (VElem i) | Err x => Err x end
+  | HProxy h n => match handle r h with Ok i => Ok (VProxy i n) | Err x => Err x end
+  | HDt d s => Ok (VDt d s)
+  end.
+
+Definition names_of (s : store) (l : list nat) : str :=
+  bjoin "," (map (fun c => str_of_opt (n_name (getn s c))) l).
+
+Definition split_last (names : list str) : option (list str * str) :=
+  match rev names with [] => None | l :: f => Some (rev f, l) end.
+
+(* the computation of one operation: returns an optional new handle and a printable result *)
+Definition op_m (r : rstate) (o : op) : M (option nat * str) :=
+  let H := fun h => lift (handle r h) in
+  let V := fun v => let! v0 := lift (hval r v) in resolve_value v0 in
+  let none := fun (m : M unit) => (m ;; ret (None, [])) in
+  match o with
+  | ONewSeg lvl name => let! i := new_segment lvl name in ret (Some i, [])
+  | ONewField lvl name dt => let! i := new_field lvl name dt in ret (Some i, [])
+  | ONewComp lvl name dt => let! i := new_component lvl name dt in ret (Some i, [])
+  | ONewSub lvl name dt text => let! i := new_subcomponent lvl name dt text in ret (Some i, [])
+  | OAdd x c => let! x := H x in let! c := H c in none (add x c)
+  | OSetAttr x names v =>
+      let! x := H x in let! v := V v in none (write_chain x names v)
+  | OSetIndex x names i v =>
+      let! x := H x in let! v := V v in
+      let! '(o, pn) := read_chain x names in
+      none (set_child o pn v i)
+  | OSetListIndex x i v => let! x := H x in let! v := V v in none (set_list_index x i v)
+  | ODelAttr x names =>
+      let! x := H x in
+      match split_last names with
+      | None => raise OutOfFuel
+      | Some ([], l) => none (del_attr x l)
+      | Some (f, l) =>
+          let! '(o, pn) := read_chain x f in
+          let! O := node_of o in
+          match iget (Some pn) (n_idx O) with
+          | [] => raise (Crash IndexError)
+          | c :: _ => none (del_attr c l)
+          end
+      end
+  | ODelIndex x names i =>
+      let! x := H x in
+      let! '(o, pn) := read_chain x names in
+      let! O := node_of o in
+      match nth_error (iget (Some pn) (n_idx O)) i with
+      | None => raise (Crash IndexError)
+      | Some c => none (remove_child o c)
+      end
+  | ODelListIndex x i => let! x := H x in none (del_list_index x i)
+  | ORemove x c => let! x := H x in let! c := H c in none (remove_child x c)
+  | OAddHelper x name => let! x := H x in let! i := add_helper x name in ret (Some i, [])
+  | OGrab x names i =>
+      let! x := H x in
+      let! '(o, pn) := read_chain x names in
+      let! O := node_of o in
+      match nth_error (iget (Some pn) (n_idx O)) i with
+      | None => raise (Crash IndexError)
+      | Some c => ret (Some c, [])
+      end
+  | OGrabList x i =>
+      let! x := H x in
+      let! X := node_of x in
+      match nth_error (n_list X) i with
+      | None => raise (Crash IndexError)
+      | Some c => ret (Some c, [])
+      end
+  | ORead x names =>
+      let! x := H x in
+      let! '(o, pn) := read_chain x names in
+      fun s => (s, Ok (None, names_of s (iget (Some pn) (n_idx (getn s o)))))
+  | OReadValue x names =>
+      let! x := H x in
+      let! v := read_value x names in ret (None, v)
+  | OLen x names =>
+      let! x := H x in
+      let! '(o, pn) := read_chain x names in
+      fun s => let l := iget (Some pn) (n_idx (getn s o)) in
+               (s, Ok (None, nat_to_str (length l) ++ ":" ++ names_of s l))
+  | OLenList x =>
+      let! x := H x in
+      fun s => let l := n_list (getn s x) in
+               (s, Ok (None, nat_to_str (length l) ++ ":" ++ names_of s l))
+  | OToEr7 x =>
+      let! x := H x in
+      fun s => (s, Ok (None, to_er7 s x false ++ "\" ++ to_er7 s x true))
+  | OSetValueChain x names text =>
+      let! x := H x in none (write_value x names text)
+  | OSetValue x text => let! x := H x in none (set_value x text)
+  | OSetValueDt x dt text => let! x := H x in none (set_value_dt 3 x dt text)
+  | OSetDatatype x dt => let! x := H x in none (set_datatype 3 x dt)
+  | OSetParent c p =>
+      let! c := H c in
+      match p with
+      | None => none (set_parent c None)
+      | Some p => let! p := H p in none (set_parent c (Some p))
+      end
+  end.
+
+(* one step of a history: new state, outcome code, printable result *)
+Definition step (r : rstate) (o : op) : rstate * nat * str :=
+  match op_m r o (r_store r) with
+  | (s', Ok (Some i, res)) => (mk_rstate s' (r_handles r ++ [i]), 0, res)
+  | (s', Ok (None, res)) => (mk_rstate s' (r_handles r), 0, res)
+  | (s', Err x) => (mk_rstate s' (r_handles r), exn_code x, [])
+  end.
+
+(* ---------- canonical dump of everything reachable from the handles ---------- *)
+
+Definition okey_leb (a b : option str) : bool :=
+  match a, b with
+  | None, _ => true
+  | Some _, None => false
+  | Some x, Some y => str_leb x y
+  end.
+Fixpoint ins_sorted (x : option str * list nat) (l : imap) : imap :=
+  match l with
+  | [] => [x]
+  | y :: r => if okey_leb (fst x) (fst y) then x :: l else y :: ins_sorted x r
+  end.
+Definition sort_imap (m : imap) : imap := fold_right ins_sorted [] m.
+
+Definition opt_list (o : option nat) : list nat := match o with Some x => [x] | None => [] end.
+Definition neighbours (X : node) : list nat :=
+  opt_list (n_parent X) ++ opt_list (n_tparent X) ++ n_list X
+  ++ flat_map snd (sort_imap (n_idx X)) ++ flat_map snd (sort_imap (n_tidx X)).
+
+Definition add_unseen (order : list nat) (l : list nat) : list nat :=
+  fold_left (fun acc c => if memb c acc then acc else acc ++ [c]) l order.
+
+(* breadth-first numbering: `order` lists node ids by number *)
+Fixpoint bfs (fuel : nat) (s : store) (order : list nat) (i : nat) : list nat :=
+  match fuel with
+  | O => order
+  | S f => match nth_error order i with
+           | None => order
+           | Some x => bfs f s (add_unseen order (neighbours (getn s x))) (S i)
+           end
+  end.
+
+Definition num_of (order : list nat) (c : nat) : str :=
+  match index_of c order with Some k => nat_to_str k | None => "?" end.
+Definition nums (order : list nat) (l : list nat) : str := bjoin "," (map (num_of order) l).
+Definition dopt (o : option str) : str := match o with Some s => "'" ++ s ++ "'" | None => "-" end.
+Definition dref (order : list nat) (o : option nat) : str := match o with Some c => num_of order c | None => "-" end.
+Definition dump_imap (order : list nat) (m : imap) : str :=
+  concat (map (fun kv => dopt (fst kv) ++ "=" ++ nums order (snd kv) ++ ";") (sort_imap m)).
+
+Definition NL : str := [x0a].
+
+Definition dump_node (s : store) (order : list nat) (c : nat) : str :=
+  let X := getn s c in
+  num_of order c ++ ":" ++
+  (match n_cls X with CSeg => "S" | CField => "F" | CComp => "C" | CSub => "s" end) ++
+  "(" ++ dopt (n_name X) ++ "," ++ dopt (n_dt X) ++ "," ++ (if is_strict (n_lvl X) then "1" else "2") ++ ")P" ++
+  dref order (n_parent X) ++ "T" ++ dref order (n_tparent X) ++
+  "L[" ++ nums order (n_list X) ++ "]I{" ++ dump_imap order (n_idx X) ++ "}X{" ++ dump_imap order (n_tidx X) ++ "}" ++
+  (match n_cls X with
+   | CSub => "V{" ++ n_enc X ++ "}"
+   | CSeg => "N(" ++ (if n_inf X then "inf" else "fin") ++ "," ++ N_to_str (n_last_allowed X) ++ "," ++ N_to_str (n_last X) ++ ")"
+   | _ => []
+   end) ++ NL.
+
+Definition dedup (l : list nat) : list nat := add_unseen [] l.
+
+Definition dump (r : rstate) : str :=
+  let s := r_store r in
+  let order := bfs 2000 s (dedup (r_handles r)) 0 in
+  concat (map (dump_node s order) order) ++
+  concat (map (fun h => "E" ++ num_of order h ++ "{" ++ to_er7 s h false ++
+                        (match n_cls (getn s h) with CSeg => "\" ++ to_er7 s h true | _ => [] end) ++ "}" ++ NL)
+              (r_handles r)).
+
+(* a hash of the observation of one step (outcome code, result, dump): the byte string read as a
+   base-256 number modulo a 61-bit prime (Python: int.from_bytes(s, 'big') % P61), 7 bytes per reduction *)
+Definition P61 : N := 2305843009213693921.
+Fixpoint hash_go (x : str) (h c : N) (k : nat) : N :=
+  match x with
+  | [] => N.modulo (N.shiftl h (N.of_nat (8 * k)) + c) P61
+  | b :: r => if Nat.eqb k 7 then hash_go r (N.modulo (N.shiftl h 56 + c) P61) (code b) 1
+              else hash_go r h (c * 256 + code b)%N (S k)
+  end.
+Definition hash_str (x : str) : N := hash_go x 0%N 0%N 0.
+
+Definition observe (r : rstate) (code : nat) (res : str) : str :=
+  nat_to_str code ++ "|" ++ res ++ NL ++ dump r.
+
+(* run a history against the expected observation hashes: Some k = first step that differs *)
+Fixpoint run_check (r : rstate) (ops : list op) (expected : list N) (k : nat) : option nat :=
+  match ops, expected with
+  | o :: ops', h :: exp' =>
+      match step r o with
+      | (r', code, res) =>
+          if N.eqb (hash_str (observe r' code res)) h then run_check r' ops' exp' (S k) else Some k
+      end
+  | [], [] => None
+  | _, _ => Some k
+  end.
+
+(* the observations themselves (for diagnostics) *)
+Fixpoint run_observe (r : rstate) (ops : list op) : list str :=
+  match ops with
+  | [] => []
+  | o :: ops' => match step r o with (r', code, res) => observe r' code res :: run_observe r' ops' end
+  end.
+
+Definition init_rstate : rstate := mk_rstate empty_store [].
 
 End Ops.
